@@ -290,6 +290,12 @@ def run(S):
 
 
 CORPUS = [
+    # line breaks other than LF inside the protected node (between tokens, inside a string): reproduced character for character
+    ('string-with-line-separator', '/* @typstyle off */ #"a\u2028b"\n', '"a\u2028b"', None),
+    ('rhs-string-with-cr', '#let x = /* @typstyle off */ "p\rq"\n', '"p\rq"', None),
+    ('array-with-form-feed', '#let y = /* @typstyle off */ (1,\x0c  2)\n', '(1,\x0c  2)', None),
+    ('block-with-nel', '#{\n  // @typstyle off\n  let   x = (1,\u0085 2)\n}\n', 'let   x = (1,\u0085 2)', None),
+    ('equation-with-vt', '$ /* @typstyle off */ a  +\x0b b $\n', 'a  +\x0b b', None),
     ('markup', '// @typstyle off\n#let   x  =  ( 1,2 )\n#let   y  =  ( 1,2 )\n', '#let   x  =  ( 1,2 )', '#let y = (1, 2)'),
     ('markup-block', '/* @typstyle off */ #f( 1 ,2 )\n\n#f( 1 ,2 )\n', '#f( 1 ,2 )', '#f(1, 2)'),
     ('code-block', '#{\n  let a = 1\n  // @typstyle off\n  let   x  =  ( 1,2 )\n  let   y  =  ( 1,2 )\n}\n', 'let   x  =  ( 1,2 )', 'let y = (1, 2)'),
